@@ -466,3 +466,5 @@ func hexDecode(s string) ([]byte, error) {
 }
 
 func bech32Decode(s string) (string, []byte, error) { return verifhook.Bech32Decode(s) }
+
+func bech32Encode(hrp string, data []byte) (string, error) { return verifhook.Bech32Encode(hrp, data) }
